@@ -125,6 +125,15 @@ Proof. vm_compute. reflexivity. Qed.
 Lemma ob_table_complete : forallb (fun p => existsb (fun e => gpoint_eqb (fst e) p) default_guards) all_points = true.
 Proof. vm_compute. reflexivity. Qed.
 
+(* every closeCh / Done / cancelCh arm gets out: where its select sits in a for loop, the arm's body
+   ends by leaving that loop (return, break / continue to a label outside).  An arm that only left
+   its select ("break" without label) would be taken again at once, for ever: the model's closeCh
+   steps (LPPauseWClose, LPTopClose, LMWaitClose, ...) all LEAVE the wait.  (The guard flags of
+   chan_ops already count such an arm as no guard; this states it on its own.) *)
+Lemma ob_close_arms_leave_their_loops :
+  forallb (fun e => snd e) XProtocol.close_arms && (12 <=? Z.of_nat (List.length XProtocol.close_arms)) = true.
+Proof. vm_compute. reflexivity. Qed.
+
 (* ---------- Close ---------- *)
 (* Scorch.Close closes closeCh and then waits for asyncTasks; every goroutine started by Open is
    counted in asyncTasks and every loop defers asyncTasks.Done() *)
